@@ -543,4 +543,30 @@ theorem premium_mono {a a' r r' d d' : Nat} (ha : a ≤ a') (hr : r ≤ r') (hd 
     (ofNat_mono hd))
 
 
+
+/-! ## the `Int`-valued variant -/
+
+theorem premiumInt_of_nonneg (a rate dur : Nat) (h : premium a rate dur < 2 ^ 63) :
+    premiumInt (a : Int) rate dur = (premium a rate dur : Int) := by
+  unfold premiumInt
+  have h1 : ¬ ((a : Int) < 0) := by omega
+  have h2 : (premium a rate dur : Int) < 2 ^ 63 := by exact_mod_cast h
+  simp only [Int.natAbs_natCast, h1, if_false]
+  rw [if_neg]; omega
+
+theorem premiumInt_neg (a rate dur : Nat) (h : premium a rate dur ≤ 2 ^ 63) :
+    premiumInt (-(a : Int)) rate dur = -(premium a rate dur : Int) := by
+  unfold premiumInt
+  have h2 : (premium a rate dur : Int) ≤ 2 ^ 63 := by exact_mod_cast h
+  simp only [Int.natAbs_neg, Int.natAbs_natCast]
+  by_cases ha : -(a : Int) < 0
+  · simp only [ha, if_true]; rw [if_neg]; omega
+  · have : a = 0 := by omega
+    subst this
+    have h0 : premium 0 rate dur = 0 := by
+      have := (premium_near 0 rate dur).2
+      simp [exactPremium] at this
+      exact this
+    simp [h0]
+
 end Pool.Float64
